@@ -799,6 +799,13 @@ reprocess:
 			char *n;
 			memcpy(&arg_int, &buf[data_pos], sizeof(int));
 			data_pos += sizeof(int);
+			if (arg_int < 0 && fmt_pos > 0 && fmt[fmt_pos - 1] == '.') {
+				/* a negative precision is taken as if the
+				 * precision were omitted */
+				fmt_pos--;
+				format++;
+				goto reprocess;
+			}
 			snprintf(num, sizeof(num), "%d", arg_int);
 			for (n = num; *n; n++) {
 				MINI_FORMAT_ADD(*n);
